@@ -6,6 +6,9 @@ Model of `src/regex.rs` (`LazyRegex`) and `src/regex_radix_tree/{item,leaf,node,
   `filter`); the real iteration order is arbitrary, so observations are compared after sorting.
 * `&mut self` / consuming methods return the new item.  `Vec::remove(i)` + `push` of `Node::insert`
   is `insertAt` (the child moves to the end, exactly as in the code).
+* `LazyRegex.compiled` is the compiled VALUE (`Option Compiled`, identified by the string and flag it was built from), not a
+  flag: `is_match` runs the stored value, `compile` stores `create_regex()` of the current fields, and "the stored value is what
+  `create_regex` builds now" is part of the invariant (`LazyRegex.consistent`), preserved by every operation.
 * `u64` arithmetic of `cache`: the only subtraction sites are `left - 1` in `Leaf::cache` and
   `left -= 1` in `Node::cache`; an underflow there would be a panic (overflow checks) and is an explicit
   `none` here – `Props/C12.lean` proves it never happens (`cache_total`).
@@ -15,44 +18,98 @@ import RioModel.Model.Regex
 namespace Rio.Tree
 open Rio.Scan Rio.Regex
 
-/-- `regex.rs::LazyRegex`.  `regex` (the anchored string) is determined by `original` and by which
-constructor built it (`isLeaf`): `^original$` for `new_leaf`; `^original` – or `.*` when `original`
-is empty – for `new_node`.  `compiled` = `self.compiled.is_some()`. -/
-structure LazyRegex where
-  original : List Char
-  isLeaf : Bool
-  ic : Bool
-  compiled : Bool
+/-- The `regex` string of a `LazyRegex`, structurally: `new_leaf` builds `"^" + p + "$"`, `new_node` builds
+`"^" + q`, or `".*"` when the prefix is empty. -/
+inductive RxSrc where
+  | leaf (p : List Char)
+  | node (q : List Char)
+  | any
 deriving DecidableEq, Repr
 
-def LazyRegex.newNode (q : List Char) (ic : Bool) : LazyRegex := ⟨q, false, ic, false⟩
-def LazyRegex.newLeaf (p : List Char) (ic : Bool) : LazyRegex := ⟨p, true, ic, false⟩
+/-- The string itself (what `verif_snapshot()` shows as `regex`). -/
+def RxSrc.toStr : RxSrc → List Char
+  | .leaf p => '^' :: (p ++ ['$'])
+  | .node q => '^' :: q
+  | .any => ['.', '*']
+
+/-- An `Arc<Regex>`: a compiled regex VALUE.  It is identified by the inputs `RegexBuilder::new(src)
+.case_insensitive(ic).build()` was called with when it was built – which need not be the current fields of the
+`LazyRegex` that holds it (that they are is an invariant: `LazyRegex.consistent`). -/
+structure Compiled where
+  src : RxSrc
+  ic : Bool
+deriving DecidableEq, Repr
+
+/-- `regex.rs::LazyRegex`: `original`, `regex`, `ignore_case`, and the cached value `compiled: Option<Arc<Regex>>`. -/
+structure LazyRegex where
+  original : List Char
+  regex : RxSrc
+  ic : Bool
+  compiled : Option Compiled
+deriving DecidableEq, Repr
+
+/-- `LazyRegex::new_node(regex, ignore_case)`. -/
+def LazyRegex.newNode (q : List Char) (ic : Bool) : LazyRegex :=
+  ⟨q, if q.isEmpty then .any else .node q, ic, none⟩
+
+/-- `LazyRegex::new_leaf(regex, ignore_case)`. -/
+def LazyRegex.newLeaf (p : List Char) (ic : Bool) : LazyRegex := ⟨p, .leaf p, ic, none⟩
+
+/-- `self.compiled.is_some()`. -/
+def LazyRegex.isCompiled (rx : LazyRegex) : Bool := rx.compiled.isSome
 
 section
 variable (E : Engine)
 
+/-- `RegexBuilder::new(src).case_insensitive(ic).build().is_ok()` for the inputs of the value. -/
+def Compiled.ok (c : Compiled) : Bool :=
+  match c.src with
+  | .leaf p => E.leafOk c.ic p
+  | .node q => E.nodeOk c.ic q
+  | .any => true
+
+/-- `Regex::is_match` of the value built from these inputs (`false` if they do not build: the engine's `full` /
+`pre` mean "compiles and matches"). -/
+def Compiled.run (c : Compiled) (s : List Char) : Bool :=
+  match c.src with
+  | .leaf p => E.full c.ic p s
+  | .node q => E.pre c.ic q s
+  | .any => true
+
+/-- `LazyRegex::create_regex`: built from the CURRENT fields `self.regex`, `self.ignore_case`; `none` = `Err`. -/
+def LazyRegex.createRegex (rx : LazyRegex) : Option Compiled :=
+  let c : Compiled := ⟨rx.regex, rx.ic⟩
+  if c.ok E then some c else none
+
 /-- `create_regex().is_some()`. -/
-def LazyRegex.createOk (rx : LazyRegex) : Bool :=
-  if rx.isLeaf then E.leafOk rx.ic rx.original
-  else if rx.original.isEmpty then true       -- ".*"
-  else E.nodeOk rx.ic rx.original
+def LazyRegex.createOk (rx : LazyRegex) : Bool := (rx.createRegex E).isSome
 
-/-- `create_regex()` is `Some(r)` and `r.is_match(s)`. -/
-def LazyRegex.run (rx : LazyRegex) (s : List Char) : Bool :=
-  if rx.isLeaf then E.full rx.ic rx.original s
-  else if rx.original.isEmpty then true       -- ".*"
-  else E.pre rx.ic rx.original s
-
-/-- `LazyRegex::is_match`. -/
+/-- `LazyRegex::is_match`: the STORED value when there is one; otherwise the `original.is_empty()` shortcut, else
+`match self.create_regex() { None => false, Some(r) => r.is_match(value) }`. -/
 def LazyRegex.isMatch (rx : LazyRegex) (s : List Char) : Bool :=
-  if rx.compiled then rx.run E s
-  else if rx.original.isEmpty then true
-  else rx.run E s          -- `match self.create_regex() { None => false, Some(r) => r.is_match(value) }`
+  match rx.compiled with
+  | some c => c.run E s
+  | none =>
+    if rx.original.isEmpty then true
+    else (⟨rx.regex, rx.ic⟩ : Compiled).run E s
 
-/-- `LazyRegex::compile`. -/
-def LazyRegex.compile (rx : LazyRegex) : LazyRegex := { rx with compiled := rx.createOk E }
+/-- `LazyRegex::compile`: same fields, `compiled = self.create_regex()`. -/
+def LazyRegex.compile (rx : LazyRegex) : LazyRegex := { rx with compiled := rx.createRegex E }
 
 end
+
+/-- The cached value, if any, is what `create_regex` builds from the current fields. -/
+def LazyRegex.consistent (rx : LazyRegex) : Bool :=
+  match rx.compiled with
+  | none => true
+  | some c => c == ⟨rx.regex, rx.ic⟩
+
+/-- A leaf's regex: `regex` is `^original$`, and the cache is consistent. -/
+def LazyRegex.leafWf (rx : LazyRegex) : Bool := rx.regex == .leaf rx.original && rx.consistent
+
+/-- A node's regex: `regex` is `^original` (`.*` for the empty prefix), and the cache is consistent. -/
+def LazyRegex.nodeWf (rx : LazyRegex) : Bool :=
+  rx.regex == (if rx.original.isEmpty then .any else .node rx.original) && rx.consistent
 
 /-- `item.rs::Item`. -/
 inductive Item (ι V : Type) where
@@ -203,8 +260,8 @@ mutual
 /-- `Item::cached_len`. -/
 def Item.cachedLen : Item ι V → Nat
   | .empty _ => 0
-  | .leaf rx _ => if rx.compiled then 1 else 0
-  | .node rx cs => (if rx.compiled then 1 else 0) + cachedLenL cs
+  | .leaf rx _ => if rx.isCompiled then 1 else 0
+  | .node rx cs => (if rx.isCompiled then 1 else 0) + cachedLenL cs
 def cachedLenL : List (Item ι V) → Nat
   | [] => 0
   | c :: cs => Item.cachedLen c + cachedLenL cs
@@ -288,10 +345,10 @@ variable (E)
 /-- `Leaf::cache` and the first block of `Node::cache`: compile unless already compiled; one unit of
 budget is spent iff the compilation succeeded.  `none` = `u64` underflow. -/
 def rxCache (rx : LazyRegex) (left : Nat) : Option (LazyRegex × Nat) :=
-  if rx.compiled then some (rx, left)
+  if rx.isCompiled then some (rx, left)
   else
     let rx' := rx.compile E
-    if rx'.compiled then (if left = 0 then none else some (rx', left - 1))
+    if rx'.isCompiled then (if left = 0 then none else some (rx', left - 1))
     else some (rx', left)
 
 mutual
@@ -483,9 +540,9 @@ mutual
 /-- `Inv ic t`. -/
 def Item.inv (ic : Bool) : Item ι V → Bool
   | .empty ic' => ic' == ic
-  | .leaf rx vs => rx.isLeaf && rx.ic == ic && !vs.isEmpty && nodupKeys vs
+  | .leaf rx vs => rx.leafWf && rx.ic == ic && !vs.isEmpty && nodupKeys vs
   | .node rx cs =>
-    !rx.isLeaf && rx.ic == ic && (scan b0 rx.original).atBoundary && decide (2 ≤ cs.length) &&
+    rx.nodeWf && rx.ic == ic && (scan b0 rx.original).atBoundary && decide (2 ≤ cs.length) &&
       cs.all (childOk rx.original) && sibOk rx.original.length (cs.map Item.regex) && invL ic cs
 def invL (ic : Bool) : List (Item ι V) → Bool
   | [] => true
